@@ -159,6 +159,8 @@ func referenceVisits(c *chain) (perBlock []int, ok bool) {
 
 var errHook = errors.New("verif hook error")
 
+const hookExt = graphsync.ExtensionName("verif/hook-result")
+
 type parked struct{ ch chan string }
 
 type world struct {
@@ -183,7 +185,6 @@ type world struct {
 	// reader holds
 	holdCh map[string]chan struct{}
 	// responder bookkeeping
-	respHook   []string // FIFO of scripted response-hook results
 	spos       int      // next item of the current stream
 	lastSub    notifications.Subscriber
 	lastSubReq gsmsg.GraphSyncRequest
@@ -191,6 +192,7 @@ type world struct {
 	prot       map[string]bool
 	writes     int
 	owed       bool // a New request message left after the last own-peer terminal status
+	reqCount   int  // New request messages that reached the network
 }
 
 func newWorld() *world {
@@ -297,15 +299,12 @@ type respHooks struct{ w *world }
 
 func (r respHooks) ProcessResponseHooks(p peer.ID, resp graphsync.ResponseData) hooks.UpdateResult {
 	r.w.arrive("rhook")
-	r.w.mu.Lock()
-	res := "ok"
-	if len(r.w.respHook) > 0 {
-		res = r.w.respHook[0]
-		r.w.respHook = r.w.respHook[1:]
-	}
-	r.w.mu.Unlock()
-	if res == "err" {
-		return hooks.UpdateResult{Err: errHook}
+	// the scripted result of this hook invocation travels with the response itself (an extension), so it
+	// does not depend on which responses the manager filters out before running the hooks
+	if nd, ok := resp.Extension(hookExt); ok {
+		if v, err := nd.AsString(); err == nil && v == "err" {
+			return hooks.UpdateResult{Err: errHook}
+		}
 	}
 	return hooks.UpdateResult{}
 }
@@ -362,6 +361,7 @@ func (ph peerHandler) AllocateAndBuildMessage(p peer.ID, blkSize uint64, fn func
 		case graphsync.RequestTypeNew:
 			kind = "req"
 			ph.w.owed = true
+			ph.w.reqCount++
 		case graphsync.RequestTypeCancel:
 			kind = "cancel"
 		case graphsync.RequestTypeUpdate:
@@ -529,6 +529,7 @@ type caseRun struct {
 	termSent           bool // own peer sent a terminal status (hook ok)
 	lastTermStatus     int
 	hookErrInjected    bool
+	pauseSeen          bool // the script issued a pause (API or block hook)
 	quiesceFailed      bool
 }
 
@@ -715,6 +716,12 @@ func isSuccessC(c int) bool { return c == 20 || c == 21 }
 func (cr *caseRun) sendResp(pr, status, items int, hk string, skip int) {
 	w := cr.w
 	w.mu.Lock()
+	// an honest responder sends blocks only for a request it has received; and (to keep the script
+	// deterministic) no blocks travel while the manager is held once a pause made a re-request possible:
+	// such in-flight blocks would belong to the previous incarnation of the request
+	if w.reqCount == 0 || (w.gateOn["rhook"] && cr.pauseSeen) {
+		items = 0
+	}
 	lo := w.spos + skip
 	if lo > cr.n {
 		lo = cr.n
@@ -726,7 +733,6 @@ func (cr *caseRun) sendResp(pr, status, items int, hk string, skip int) {
 	if pr == 0 {
 		w.spos = hi
 	}
-	w.respHook = append(w.respHook, hk)
 	w.mu.Unlock()
 	var md []gsmsg.GraphSyncLinkMetadatum
 	var blks []blocks.Block
@@ -735,7 +741,11 @@ func (cr *caseRun) sendResp(pr, status, items int, hk string, skip int) {
 		b, _ := blocks.NewBlockWithCid(cr.ch.data[j], cr.ch.cids[j])
 		blks = append(blks, b)
 	}
-	cr.rm.ProcessResponses(peerID(pr), []gsmsg.GraphSyncResponse{gsmsg.NewResponse(cr.reqID, graphsync.ResponseStatusCode(status), md)}, blks)
+	var exts []graphsync.ExtensionData
+	if hk == "err" {
+		exts = append(exts, graphsync.ExtensionData{Name: hookExt, Data: basicnode.NewString("err")})
+	}
+	cr.rm.ProcessResponses(peerID(pr), []gsmsg.GraphSyncResponse{gsmsg.NewResponse(cr.reqID, graphsync.ResponseStatusCode(status), md, exts...)}, blks)
 }
 
 func runCase(c reg.Case, out *reg.Out) {
@@ -779,6 +789,9 @@ func runCase(c reg.Case, out *reg.Out) {
 			if len(op) > 2 {
 				val = op[2]
 			}
+			if val == "hp" {
+				cr.pauseSeen = true
+			}
 			if op[1] == "hook" && val == "err" && w.isParked("hook") {
 				cr.hookErrInjected = true
 			}
@@ -794,6 +807,9 @@ func runCase(c reg.Case, out *reg.Out) {
 			val := "ok"
 			if len(op) > 1 {
 				val = op[1]
+			}
+			if val == "hp" {
+				cr.pauseSeen = true
 			}
 			done := false
 			for _, g := range []string{"work", "read", "hook", "send"} {
@@ -901,6 +917,7 @@ func runCase(c reg.Case, out *reg.Out) {
 				out.Line("bad-op")
 				continue
 			}
+			cr.pauseSeen = true
 			go func() { cr.apiResult("pause", cr.rm.PauseRequest(context.Background(), cr.reqID)) }()
 			cr.obs("")
 		case "unpause":
